@@ -20,7 +20,18 @@ VARIABLES val, subs, notes, ret
 vars == <<val, subs, notes, ret>>
 
 Abs(x) == IF x < 0 THEN -x ELSE x
-Eq(a, b) == IF Kind = "str" THEN a = b ELSE Abs(a - b) <= Tol
+\* floating point only: three distinguished values outside Dom (written as integers the harness maps to real values)
+\*   Big   2^24 (float) / 2^53 (double): adding a quarter or a half to it is absorbed by rounding
+\*   PInf / NInf   what a finite non-zero value divided by zero becomes
+Big == 1000000
+PInf == 2000000
+NInf == -2000000
+Specials == IF Kind = "flt" THEN {Big, PInf, NInf} ELSE {}
+\* |a - b| <= Tol; an infinity is not within tolerance of anything (inf - inf is NaN), Big only of itself
+Eq(a, b) == IF Kind = "str" THEN a = b
+            ELSE IF a \in {PInf, NInf} \/ b \in {PInf, NInf} THEN FALSE
+            ELSE IF a = Big \/ b = Big THEN a = b
+            ELSE Abs(a - b) <= Tol
 InDom(v) == IF Kind = "str" THEN Len(v) <= MaxLen ELSE v \in Dom
 TruncDiv(a, b) == IF (a >= 0) = (b > 0) THEN Abs(a) \div Abs(b) ELSE -(Abs(a) \div Abs(b))
 Strs == UNION {[1..n -> {1, 2}] : n \in 0..MaxLen}
@@ -38,23 +49,34 @@ Assign(v) == /\ v \in Values
 Mutate(nv) == /\ InDom(nv) /\ val' = nv
               /\ notes' = IF Eq(val, nv) THEN {} ELSE NotifyAll(nv)
               /\ ret' = nv /\ UNCHANGED subs
-Add(d) == Kind # "str" /\ d \in Deltas /\ Mutate(val + d)
-Sub(d) == Kind # "str" /\ d \in Deltas /\ Mutate(val - d)
-Mul(f) == Kind # "str" /\ f \in Factors /\ Mutate(IF Kind = "flt" THEN val * f ELSE val * f)
-Div(f) == /\ Kind # "str" /\ f \in Divisors
+Ord == val \notin Specials      \* the arithmetic of the model is defined on ordinary values only
+Add(d) == Kind # "str" /\ Ord /\ d \in Deltas /\ Mutate(val + d)
+Sub(d) == Kind # "str" /\ Ord /\ d \in Deltas /\ Mutate(val - d)
+Mul(f) == Kind # "str" /\ Ord /\ f \in Factors /\ Mutate(IF Kind = "flt" THEN val * f ELSE val * f)
+Div(f) == /\ Kind # "str" /\ Ord /\ f \in Divisors
           /\ IF Kind = "flt" THEN val % Abs(f) = 0 /\ Mutate(TruncDiv(val, f)) ELSE Mutate(TruncDiv(val, f))
 \* T op= double for an integer T: computed in double, truncated towards zero on the way back (the operand is NOT narrowed first)
 AddF(h) == Kind = "int" /\ h \in Halves /\ Mutate(TruncDiv(2 * val + h, 2))
 SubF(h) == Kind = "int" /\ h \in Halves /\ Mutate(TruncDiv(2 * val - h, 2))
 MulF(h) == Kind = "int" /\ h \in Halves /\ Mutate(TruncDiv(val * h, 2))
 DivF(h) == Kind = "int" /\ h \in Halves /\ h # 0 /\ Mutate(TruncDiv(2 * val, h))
+\* operator=(2^24): an ordinary assignment of a value outside Dom
+AssignBig == /\ Kind = "flt"
+             /\ IF Eq(val, Big) THEN UNCHANGED val /\ notes' = {} ELSE val' = Big /\ notes' = NotifyAll(Big)
+             /\ ret' = val' /\ UNCHANGED subs
+\* 2^24 += 0.25 (or 0.5): the sum rounds back to 2^24 -- the value did not change, nobody is notified
+AddAbsorbed(d) == /\ Kind = "flt" /\ val = Big /\ d \in {1, 2}
+                  /\ UNCHANGED <<val, subs>> /\ notes' = {} /\ ret' = Big
+\* a finite non-zero value divided by zero becomes an infinity: a change like any other
+DivZero == /\ Kind = "flt" /\ Ord /\ val # 0
+           /\ val' = (IF val > 0 THEN PInf ELSE NInf) /\ notes' = NotifyAll(val') /\ ret' = val' /\ UNCHANGED subs
 Concat(s) == Kind = "str" /\ s \in Strs /\ Len(s) >= 1 /\ Mutate(val \o s)
-Apply(f) == /\ f \in {"id", "inc", "zero"}
+Apply(f) == /\ f \in {"id", "inc", "zero"} /\ (Ord \/ f = "zero")
             /\ Mutate(CASE f = "id" -> val
                         [] f = "inc" -> IF Kind = "str" THEN val \o <<1>> ELSE val + One
                         [] f = "zero" -> IF Kind = "str" THEN <<>> ELSE 0)
 \* increment and decrement always notify
-Step(nv, r) == /\ Kind # "str" /\ InDom(nv) /\ val' = nv /\ notes' = NotifyAll(nv) /\ ret' = r /\ UNCHANGED subs
+Step(nv, r) == /\ Kind # "str" /\ Ord /\ InDom(nv) /\ val' = nv /\ notes' = NotifyAll(nv) /\ ret' = r /\ UNCHANGED subs
 PreInc == Step(val + One, val + One)
 PostInc == Step(val + One, val)
 PreDec == Step(val - One, val - One)
@@ -67,6 +89,7 @@ Next == \/ \E v \in Values : Assign(v)
         \/ \E f \in Factors : Mul(f)
         \/ \E f \in Divisors : Div(f)
         \/ \E h \in Halves : AddF(h) \/ SubF(h) \/ MulF(h) \/ DivF(h)
+        \/ AssignBig \/ DivZero \/ \E d \in {1, 2} : AddAbsorbed(d)
         \/ \E s \in Strs : Concat(s)
         \/ \E f \in {"id", "inc", "zero"} : Apply(f)
         \/ PreInc \/ PostInc \/ PreDec \/ PostDec
@@ -74,7 +97,7 @@ Next == \/ \E v \in Values : Assign(v)
 Spec == Init /\ [][Next]_vars
 
 \* C16: with exact equality a subscriber that records notifications always holds the current value
-TypeOK == InDom(val) /\ subs \subseteq {1, 2}
+TypeOK == (InDom(val) \/ val \in Specials) /\ subs \subseteq {1, 2}
 ExactlyOnce == \A n1, n2 \in notes : n1[1] = n2[1] => n1 = n2
 NewValue == \A n \in notes : n[2] = val /\ n[1] \in subs
 \* every change (according to Eq) notifies everybody, no change notifies nobody  (++/-- excepted: they always notify)
